@@ -108,6 +108,8 @@ pub struct CircuitRunner<'a, F> {
 
 /// `v.get(i).and_then(|x| *x)`
 pub fn op_index_lookup(v: &Vec<Option<usize>>, i: usize) -> (r: Option<usize>) ensures r == (if i < v@.len() { v@[i as int] } else { None }) { if i < v.len() { v[i] } else { None } }
+/// execute_all is public and run() calls it again: the per-op state (Poseidon / recompose rows) of a first call is kept and every non-primitive row is recorded twice
+pub uninterp spec fn no_op_of_the_circuit_was_executed_yet<F>(r: &CircuitRunner<'_, F>) -> bool;
 pub mod ax {
     use super::*;
     pub broadcast axiom fn witness_id_key_model()
@@ -373,7 +375,7 @@ def build():
     rn.sig_rewrite('R2', 'mut self', 'self')
     rn.sig_rewrite('R13', '-> Result<Traces<F>, CircuitError>', '-> Result<Vec<F>, CircuitError>')
     rn.rewrite_re('R2', r'\bself\.', 'self_.', min_count=4)
-    rn.at_start('let mut self_ = self;')
+    rn.at_start('let mut self_ = self; proof { assert(no_op_of_the_circuit_was_executed_yet(&self_)); } // @@A:H_run_is_the_first_execution_of_the_op_list')
     rn.truncate_after('let witness_trace = WitnessTrace::new(witness_values);', 'Ok(witness_values)',
                       'suffix builds const/public/alu/non-primitive traces from the (no longer modified) witness table')
     rn.rewrite('R13', 'let witness_trace = WitnessTrace::new(witness_values);', '')
